@@ -62,6 +62,29 @@ let () =
     | "L" :: evs ->
       let evs = List.filter (fun e -> e <> "-") evs in
       Printf.printf "L %s\n" (if log_ok (List.map parse_event evs) [] then "OK" else "FAIL")
+    | "D" :: reqs ->
+      (* default allocator: requests m<size> c<n>x<size> r<blk>:<size> f<blk> a<al>:<size> F<blk> -> libc calls *)
+      let num s = z_of_int (int_of_string s) in
+      let after c s = let i = String.index s c in String.sub s (i + 1) (String.length s - i - 1) in
+      let before c s = let i = String.index s c in String.sub s 1 (i - 1) in
+      let rest s = String.sub s 1 (String.length s - 1) in
+      let parse r = match r.[0] with
+        | 'm' -> Some (AllocModel.DMalloc (num (rest r)))
+        | 'c' -> Some (AllocModel.DCalloc (num (before 'x' r), num (after 'x' r)))
+        | 'r' -> Some (AllocModel.DRealloc (nat_of_int (int_of_string (before ':' r)), num (after ':' r)))
+        | 'f' -> Some (AllocModel.DFree (nat_of_int (int_of_string (rest r))))
+        | 'a' -> Some (AllocModel.DAlignedAlloc (num (before ':' r), num (after ':' r)))
+        | 'F' -> Some (AllocModel.DAlignedFree (nat_of_int (int_of_string (rest r))))
+        | _ -> None in
+      let rs = List.filter_map parse reqs in
+      let show = function
+        | AllocModel.LMalloc n -> Printf.sprintf "malloc(%s)" (string_of_z n)
+        | AllocModel.LCalloc (n, s) -> Printf.sprintf "calloc(%s;%s)" (string_of_z n) (string_of_z s)
+        | AllocModel.LRealloc (b, n) -> Printf.sprintf "realloc(#%d;%s)" (int_of_nat b) (string_of_z n)
+        | AllocModel.LFree b -> Printf.sprintf "free(#%d)" (int_of_nat b)
+        | AllocModel.LPosixMemalign (a, n) -> Printf.sprintf "posix_memalign(%s;%s)" (string_of_z a) (string_of_z n) in
+      let tr = List.map show (AllocModel.default_trace rs) in
+      Printf.printf "D %s\n" (if tr = [] then "-" else String.concat "," tr)
     | "G" :: fn :: bits :: args ->
       let s0 = AllocModel.ast0 (oracle_of (if bits = "-" then "" else bits)) in
       let l = match fn with
